@@ -669,9 +669,7 @@ int parse_instruction_powerpc(AsmContext *asm_context, char *instr)
             return -1;
           }
 
-          temp = (offset >> 26) & 0x3f;
-
-          if (temp != 0 && temp != 0x3f)
+          if (offset < -(1 << 25) || offset > (1 << 25) - 1)
           {
             print_error_range(asm_context, "Offset", -(1 << 25), (1 << 25) - 1);
             return -1;
@@ -741,9 +739,7 @@ int parse_instruction_powerpc(AsmContext *asm_context, char *instr)
             return -1;
           }
 
-          temp = offset & 0xffff0000;
-
-          if (temp != 0 && temp != 0xffff0000)
+          if (offset < -(1 << 15) || offset > (1 << 15) - 1)
           {
             print_error_range(asm_context, "Offset", -(1 << 15), (1 << 15) - 1);
             return -1;
@@ -872,9 +868,7 @@ int parse_instruction_powerpc(AsmContext *asm_context, char *instr)
             return -1;
           }
 
-          temp = offset & 0xffff0000;
-
-          if (temp != 0 && temp != 0xffff0000)
+          if (offset < -(1 << 15) || offset > (1 << 15) - 1)
           {
             print_error_range(asm_context, "Offset", -(1 << 15), (1 << 15) - 1);
             return -1;
